@@ -5,7 +5,7 @@ cd "$(dirname "$0")"
 for d in seeded/*/; do
   id=$(basename $d); chk=${id%%-*}
   if [ $# -gt 0 ]; then case " $* " in *" $chk "*|*" $id "*) ;; *) continue;; esac; fi
-  out=$(./tools_seed_run.sh $id $chk 2>&1 | head -1)
+  out=$(./tools_seed_run.sh $id $chk 2>&1 | tr -d '\000' | grep -a '^SEED' | head -1)
   rc=$(echo "$out" | sed -n 's/.* rc=\([0-9]*\) .*/\1/p')
   echo "$id $chk rc=$rc"
 done
